@@ -8,6 +8,7 @@ import random
 
 from run import Case
 from regmachine import Machine
+from kernels_tie import optional_registry as optional_obligation  # noqa: F401  (registry functions of node.py regenerated: optional bridge)
 
 PROPERTY = "C03"
 LEAN_MODULE = "PyOak.Props.C03All"      # C03 + C03Extra (AUDIT #7 additions)
